@@ -161,6 +161,14 @@ def decide(pid, tier, seed, mod, jobs, work, t0, partial=False, write_evidence=T
                     status = "HOLDS"
             else:
                 n_dis += r.n_props - len(wit_fail) - len(real_fail)
+                # only unwinding assertions failed: the loop/recursion bound of the job was too small for this
+                # tree -- that is "outside the bound", not a violation of the property (unless the job is one
+                # whose subject is termination)
+                if all(f.kind == "unwind" for f in real_fail) and "unwind-is-violation" not in j.flags_meta:
+                    inconclusive.append((j, "BOUND: unwinding assertion(s) failed (%s): the job's unwinding bound does "
+                                            "not cover this tree" % "; ".join(f.prop_id for f in real_fail[:3])))
+                    status = "BOUND-EXCEEDED"
+                    real_fail = []
                 # known finding?
                 unmatched = []
                 hits = []
@@ -171,7 +179,9 @@ def decide(pid, tier, seed, mod, jobs, work, t0, partial=False, write_evidence=T
                         hits.append((m[0], f))
                     else:
                         unmatched.append(f)
-                if not unmatched and j.name in twins:
+                if status == "BOUND-EXCEEDED":
+                    pass
+                elif not unmatched and j.name in twins:
                     tr = results[twins[j.name]]
                     treal = [f for f in tr.failures if not is_witness(f)]
                     if tr.verdict in ("INCONCLUSIVE", "BUILD_ERROR"):
